@@ -7,7 +7,7 @@ use crate::error::{ProtocolError, Result};
 use base64::Engine;
 use cascette_formats::CascFormat;
 use cascette_formats::bpsv::BpsvDocument;
-use mail_parser::{HeaderValue, MessageParser, PartType};
+use mail_parser::{HeaderValue, MessageParser, MimeHeaders, PartType};
 use sha2::{Digest, Sha256};
 use tracing::{debug, trace};
 
@@ -61,6 +61,24 @@ pub fn parse_v1_mime_response(raw_response: &[u8]) -> Result<V1MimeResponse> {
     let message = MessageParser::default()
         .parse(message_data)
         .ok_or_else(|| ProtocolError::Parse("Failed to parse MIME message".to_string()))?;
+
+    // A multipart message that was cut short (connection lost mid-response)
+    // still parses leniently up to the cut. The closing delimiter tells a
+    // complete message from a truncated one.
+    if let Some(boundary) = message
+        .content_type()
+        .and_then(|ct| ct.attribute("boundary"))
+    {
+        let closing = format!("--{boundary}--");
+        if !message_data
+            .windows(closing.len())
+            .any(|w| w == closing.as_bytes())
+        {
+            return Err(ProtocolError::Parse(
+                "Truncated MIME message: closing boundary not found".to_string(),
+            ));
+        }
+    }
 
     trace!(
         "Parsed message - parts count: {}, text_body indices: {:?}",
